@@ -107,8 +107,13 @@ pub fn record_execution(rng: &mut Rng, params: &ExecParams) -> Execution {
         let mut write: Option<Vec<WriteOp>> = None;
         if roll < 55 {
             counter += 1;
-            let k = rng.pick(&pool).clone();
+            let mut k = rng.pick(&pool).clone();
             let v = if params.values_longer_than_a_block && rng.chance(0.2) {
+                // the long values go to the three smallest keys: tables then begin with data blocks
+                // that hold one entry each
+                let mut sorted = pool.clone();
+                sorted.sort();
+                k = sorted[rng.usize_below(sorted.len().min(3))].clone();
                 let extra = rng.below(60) as usize;
                 gen::tagged_value(rng, &format!("v{counter}:"), params.cfg.block + 40 + extra)
             } else if params.big_values && rng.chance(0.04) {
